@@ -305,6 +305,12 @@ func checkC12(P *Program, r *Result, tier string) {
 			}
 			r.add("EXC-BRANCH", shortName(um), "test", "the message type returned by the header reader is compared with EXCEPTION (3)", P.pos(um.Pos()), test != nil, "")
 			var msgRead, exRead *ssa.Call
+			var exFn *ssa.Function // function containing the exception decode (um itself or a helper it calls)
+			var exCall *ssa.Call   // the call in um that leads there (nil when in um itself)
+			isExRead := func(c ssa.CallInstruction) bool {
+				cal := c.Common().StaticCallee()
+				return cal != nil && cal.Name() == "FastRead" && strings.Contains(cal.String(), "ApplicationException")
+			}
 			for _, c := range callsIn(um) {
 				cc, ok := c.(*ssa.Call)
 				if !ok {
@@ -313,44 +319,87 @@ func checkC12(P *Program, r *Result, tier string) {
 				if isInvokeOf(c, "FastRead") && c.Common().Value == ssa.Value(um.Params[1]) {
 					msgRead = cc
 				}
-				if cal := c.Common().StaticCallee(); cal != nil && cal.Name() == "FastRead" && strings.Contains(cal.String(), "ApplicationException") {
-					exRead = cc
+				if isExRead(c) {
+					exRead, exFn = cc, um
+				}
+				if cal := c.Common().StaticCallee(); cal != nil && inRepo(cal) && cal.Blocks != nil && exRead == nil {
+					for _, c2 := range callsIn(cal) {
+						if cc2, ok2 := c2.(*ssa.Call); ok2 && isExRead(c2) {
+							exRead, exFn, exCall = cc2, cal, cc
+						}
+					}
 				}
 			}
 			if test != nil && r.require("UnmarshalFastMsg: msg.FastRead and ex.FastRead calls", msgRead != nil && exRead != nil) {
+				r.Funcs[shortName(exFn)] = true
+				var exSite ssa.Instruction = exRead
+				if exCall != nil {
+					exSite = exCall
+				}
 				r.add("EXC-BRANCH", shortName(um), "guard", "the caller's struct is decoded only when the type is not EXCEPTION", P.pos(instrPos(msgRead)), guardedBy(msgRead, test, !isExc), "")
-				r.add("EXC-BRANCH", shortName(um), "guard", "the exception payload is decoded only when the type is EXCEPTION", P.pos(instrPos(exRead)), guardedBy(exRead, test, isExc), "")
+				r.add("EXC-BRANCH", shortName(um), "guard", "the exception payload is decoded only when the type is EXCEPTION", P.pos(instrPos(exSite)), guardedBy(exSite, test, isExc), "")
 				// both decode b[i:] with i = consumed header length
 				fa := newAnalysis(P).fa(um)
-				for _, c := range []*ssa.Call{msgRead, exRead} {
-					arg := c.Common().Args[len(c.Common().Args)-1]
-					if c == msgRead {
-						arg = c.Common().Args[0]
-					}
+				payloadArg := func(arg ssa.Value) bool {
 					d := fa.sliceDesc(arg)
 					ok := d != nil && d.Root == ssa.Value(um.Params[0]) && d.Off.equal(fa.expand(resultValue(hdr, 3)))
-					if sl, isSl := arg.(*ssa.Slice); isSl && (sl.High != nil || sl.Max != nil) {
+					if bd := fa.sliceDesc(um.Params[0]); ok && bd != nil && !d.Len.equal(bd.Len.sub(d.Off)) {
 						ok = false
 					}
-					r.add("EXC-BRANCH", shortName(um), "payload", "the payload is decoded from b[headerLen:]", P.pos(instrPos(c)), ok, "")
+					return ok
+				}
+				r.add("EXC-BRANCH", shortName(um), "payload", "the payload is decoded from b[headerLen:]", P.pos(instrPos(msgRead)), payloadArg(msgRead.Common().Args[0]), "")
+				if exCall == nil {
+					r.add("EXC-BRANCH", shortName(um), "payload", "the payload is decoded from b[headerLen:]", P.pos(instrPos(exRead)), payloadArg(exRead.Common().Args[len(exRead.Common().Args)-1]), "")
+				} else {
+					// the helper receives b[headerLen:] and decodes exactly its parameter
+					okArg := false
+					for i, a := range exCall.Common().Args {
+						if isByteSlice(a.Type()) && payloadArg(a) && exRead.Common().Args[len(exRead.Common().Args)-1] == ssa.Value(exFn.Params[i]) {
+							okArg = true
+						}
+					}
+					r.add("EXC-BRANCH", shortName(um), "payload", "the payload is decoded from b[headerLen:]", P.pos(instrPos(exCall)), okArg, "")
 				}
 				// receiver of ex.FastRead is a fresh ApplicationException; it is what is returned as error
 				recv := exRead.Common().Args[0]
 				mk := staticCallNamed(recv, "NewApplicationException")
-				r.add("EXC-BRANCH", shortName(um), "fresh", "the exception is decoded into a fresh ApplicationException", P.pos(instrPos(exRead)), mk != nil, "")
+				r.add("EXC-BRANCH", shortName(exFn), "fresh", "the exception is decoded into a fresh ApplicationException", P.pos(instrPos(exRead)), mk != nil, "")
 				retOK, retErrOK := false, false
-				for _, ret := range returnsOf(um) {
-					if !guardedBy(ret, test, isExc) {
-						continue
-					}
-					ev := ret.Results[2]
-					if mi, ok := ev.(*ssa.MakeInterface); ok && mi.X == recv {
-						if isRes(ret.Results[0], 0) && isRes(ret.Results[1], 2) {
-							retOK = true
+				if exCall == nil {
+					for _, ret := range returnsOf(um) {
+						if !guardedBy(ret, test, isExc) {
+							continue
+						}
+						ev := ret.Results[2]
+						if mi, ok := ev.(*ssa.MakeInterface); ok && mi.X == recv {
+							if isRes(ret.Results[0], 0) && isRes(ret.Results[1], 2) {
+								retOK = true
+							}
+						}
+						if ex, ok := ev.(*ssa.Extract); ok && ex.Tuple == ssa.Value(exRead) {
+							retErrOK = true
 						}
 					}
-					if ex, ok := ev.(*ssa.Extract); ok && ex.Tuple == ssa.Value(exRead) {
-						retErrOK = true
+				} else {
+					// the helper returns the exception itself on success and the decoder's error otherwise …
+					hOK, hErr := false, false
+					for _, ret := range returnsOf(exFn) {
+						ev := ret.Results[len(ret.Results)-1]
+						if mi, ok := ev.(*ssa.MakeInterface); ok && mi.X == recv {
+							if ee := resultValue(exRead, 1); ee != nil && guardedNil(ret, ee) {
+								hOK = true
+							}
+						}
+						if ex, ok := ev.(*ssa.Extract); ok && ex.Tuple == ssa.Value(exRead) {
+							hErr = true
+						}
+					}
+					// … and um hands that result on with the header's method and seq
+					for _, ret := range returnsOf(um) {
+						if guardedBy(ret, test, isExc) && ret.Results[2] == ssa.Value(exCall) && isRes(ret.Results[0], 0) && isRes(ret.Results[1], 2) {
+							retOK, retErrOK = hOK, hErr
+						}
 					}
 				}
 				r.add("EXC-BRANCH", shortName(um), "return", "on success the decoded exception itself is returned as the error, with the header's method and seq", P.pos(um.Pos()), retOK, "")
@@ -391,21 +440,36 @@ func checkC12(P *Program, r *Result, tier string) {
 			d := fa.sliceDesc(pcall.Common().Args[0])
 			okP := d != nil && d.Root == ssa.Value(mk) && d.Off.equal(fa.expand(wcall)) && pcall.Common().Value == ssa.Value(mm.Params[3])
 			r.add("EXC-BRANCH", shortName(mm), "payload", "the payload is written right after the header", P.pos(instrPos(pcall)), okP, "")
-			// size = MessageBeginLength(method) + msg.BLength()
+			// size = MessageBeginLength(method) + msg.BLength(), i.e. 12 + len(method) + BLength — however it is spelled
 			okSz := false
-			if bo, ok := mk.Common().Args[0].(*ssa.BinOp); ok && bo.Op == token.ADD {
-				var l1, l2 bool
-				for _, v := range []ssa.Value{bo.X, bo.Y} {
-					if c := asCall(v); c != nil {
-						if cal := c.Common().StaticCallee(); isBinaryProtocolMethod(cal) && cal.Name() == "MessageBeginLength" && c.Common().Args[1] == ssa.Value(mm.Params[0]) {
-							l1 = true
-						}
-						if isInvokeOf(c, "BLength") && c.Common().Value == ssa.Value(mm.Params[3]) {
-							l2 = true
+			{
+				faM := newAnalysis(P).fa(mm)
+				sz := faM.expand(mk.Common().Args[0])
+				var bl *ssa.Call
+				sub := map[AtomID]*Lin{}
+				for _, c := range callsIn(mm) {
+					cc, isCall := c.(*ssa.Call)
+					if !isCall {
+						continue
+					}
+					if isInvokeOf(c, "BLength") && c.Common().Value == ssa.Value(mm.Params[3]) {
+						bl = cc
+					}
+					if cal := c.Common().StaticCallee(); isBinaryProtocolMethod(cal) && strings.HasSuffix(cal.Name(), "Length") {
+						if id, has := faM.A.byKey["v:"+faM.vkey(cc)]; has {
+							if l := calleeLinear(faM, cc); l != nil {
+								sub[id] = l
+							}
 						}
 					}
 				}
-				okSz = l1 && l2 && mk.Common().Args[0] == mk.Common().Args[1]
+				sz = sz.substAll(sub)
+				if bl != nil {
+					if md := faM.sliceDesc(mm.Params[0]); md != nil {
+						want := md.Len.addConst(12).add(faM.expand(bl))
+						okSz = sz.equal(want) && mk.Common().Args[0] == mk.Common().Args[1]
+					}
+				}
 			}
 			r.add("EXC-BRANCH", shortName(mm), "size", "the buffer has exactly MessageBeginLength(method) + msg.BLength() bytes", P.pos(instrPos(mk)), okSz, "")
 		}
